@@ -160,7 +160,7 @@ CHECKS = {
     'C15': {
         'level': 'exploration',
         'legs': [
-            {'engine': 'faultcall', 'config': 'asan', 'variant': 'wipe', 'runs': [4000, 300000]},
+            {'engine': 'faultcall', 'config': 'asan', 'variant': 'wipe', 'runs': [10000, 500000]},
             {'engine': 'protosim', 'config': 'asan', 'variant': 'bake', 'runs': [6000, 600000]},
             {'engine': 'protosim', 'config': 'asan', 'variant': 'bakediff', 'runs': [4000, 400000]},
         ],
